@@ -57,4 +57,63 @@ theorem ownFlagGuards_match_source (running : Bool) :
 theorem tickerSkip_matches_source (getter nilFn : Nat) :
     tickSkipped getter nilFn = Gen.Src.c18TickNoGetter getter nilFn := rfl
 
+/-- `timeTicker.Start`, after the getter call: `if err != nil { …; continue }` — with `tickerSkip_matches_source`: a tick
+    spawns a `Process` goroutine iff there is a getter and it returned no error -/
+theorem tickSpawns_matches_source (getter nilFn err nilErr : Nat) :
+    tickSpawns getter nilFn err nilErr = (!Gen.Src.c18TickNoGetter getter nilFn && !Gen.Src.c18TickGetterFailed err nilErr) := rfl
+
+/-- OCR2 `ocrPlugin.Close`, body of `for _, proc := range p.subProcs`: an error of a sub-service's Close is recorded
+    (`finalErr = errors.Join(…)`, the marked effect) and the body is left neither by `return` nor by `break` — the loop
+    goes on to the next sub-service; OCR3 `ocr3Plugin.Close`: the body has no exit at all.  Hence `closeAll`: every
+    sub-service is closed, every error reported (and not `closeUntilError`). -/
+theorem closeLoops_tree_match_source (closeErr : Bool) :
+    (Gen.Src.c18V2CloseLoopKind (Gen.Src.c18V2CloseLoop closeErr) = if closeErr then 4 else 0) ∧
+    (Gen.Src.c18V2CloseLoopMark (Gen.Src.c18V2CloseLoop closeErr) = if closeErr then 1 else 0) ∧
+    Gen.Src.c18V3CloseLoop = 0 ∧
+    (closeAll [closeErr]).2 = (if Gen.Src.c18V2CloseLoopMark (Gen.Src.c18V2CloseLoop closeErr) = 1 then 1 else 0) := by
+  cases closeErr <;> simp [Gen.Src.c18V2CloseLoop, Gen.Src.c18V2CloseLoopKind, Gen.Src.c18V2CloseLoopMark, Gen.Src.c18V3CloseLoop, closeAll]
+
+/-- `plugin.newPlugin`: the order of the three error tests, what each exit returns (`nil` instance at the three error
+    exits), and that `plugin.startServices()` — the only statement that starts anything — is reached exactly when none of
+    them fired -/
+theorem newPlugin_tree_matches_source (subErr runnerErr lateErr : Bool) (n : Nat) :
+    (newPluginOutcome subErr runnerErr lateErr n).1 =
+      (if Gen.Src.c18NewPluginKind (Gen.Src.c18NewPlugin subErr runnerErr lateErr) = 4 then Ctor.built else Ctor.failed) ∧
+    ((newPluginOutcome subErr runnerErr lateErr n).1 = .failed ↔
+      Gen.Src.c18NewPluginNil1 (Gen.Src.c18NewPlugin subErr runnerErr lateErr) = true) ∧
+    (Gen.Src.c18NewPluginMark (Gen.Src.c18NewPlugin subErr runnerErr lateErr) = 1 ↔ (newPluginOutcome subErr runnerErr lateErr n).2 = n ∧
+      (newPluginOutcome subErr runnerErr lateErr n).1 = .built) ∧
+    Gen.Src.c18NewPluginNil1 5 = false ∧ Gen.Src.c18NewPluginKind 5 = 1 := by
+  cases subErr <;> cases runnerErr <;> cases lateErr <;>
+    simp [newPluginOutcome, Gen.Src.c18NewPlugin, Gen.Src.c18NewPluginKind, Gen.Src.c18NewPluginNil1, Gen.Src.c18NewPluginMark]
+
+/-- OCR3 `pluginFactory.NewReportingPlugin`: config decode, probability parse, sample ratio, `newPlugin` — in that order,
+    a `nil` instance at each of the four error exits -/
+theorem newReportingPlugin_tree_matches_source (cfgErr parseErr sampleErr pluginErr : Bool) (n : Nat) :
+    ((newReportingPluginOutcome cfgErr parseErr sampleErr pluginErr n).1 = .failed ↔
+      Gen.Src.c18NewReportingPluginNil1 (Gen.Src.c18NewReportingPlugin cfgErr parseErr sampleErr pluginErr) = true) ∧
+    ((newReportingPluginOutcome cfgErr parseErr sampleErr pluginErr n).1 = .built ↔
+      Gen.Src.c18NewReportingPlugin cfgErr parseErr sampleErr pluginErr = 5) ∧
+    Gen.Src.c18NewReportingPluginKind (Gen.Src.c18NewReportingPlugin cfgErr parseErr sampleErr pluginErr) = 1 := by
+  cases cfgErr <;> cases parseErr <;> cases sampleErr <;> cases pluginErr <;>
+    simp [newReportingPluginOutcome, Gen.Src.c18NewReportingPlugin, Gen.Src.c18NewReportingPluginNil1, Gen.Src.c18NewReportingPluginKind]
+
+/-- OCR2 `pluginFactory.NewReportingPlugin`: config decode, coordinator factory, observer factory — all three before the
+    loop that starts the sub-services -/
+theorem newReportingPluginV2_tree_matches_source (cfgErr coordErr obsErr : Bool) :
+    ((newReportingPluginOutcomeV2 cfgErr coordErr obsErr).1 = .failed ↔
+      Gen.Src.c18NewReportingPluginV2Nil1 (Gen.Src.c18NewReportingPluginV2 cfgErr coordErr obsErr) = true) ∧
+    ((newReportingPluginOutcomeV2 cfgErr coordErr obsErr).1 = .built ↔ Gen.Src.c18NewReportingPluginV2 cfgErr coordErr obsErr = 4) := by
+  cases cfgErr <;> cases coordErr <;> cases obsErr <;>
+    simp [newReportingPluginOutcomeV2, Gen.Src.c18NewReportingPluginV2, Gen.Src.c18NewReportingPluginV2Nil1]
+
+/-- `metadataStore.Close`: refused iff not running; otherwise `Unsubscribe` is called and after it there is exactly ONE
+    way out, the final `return err` (exit 3; there is no exit 4) — no early return between the Unsubscribe call and the
+    stop signal, which is what `unsubStops = true` says -/
+theorem metaClose_tree_matches_source (running : Bool) :
+    (Gen.Src.c18MetaCloseKind (Gen.Src.c18MetaClose running) = 1 ↔ flagCloseRefuses running = true) ∧
+    (Gen.Src.c18MetaCloseMark (Gen.Src.c18MetaClose running) = 1 ↔ flagCloseRefuses running = false) ∧
+    Gen.Src.c18MetaCloseKind 3 = 1 ∧ Gen.Src.c18MetaCloseKind 4 = 0 ∧ unsubStopsNow = true := by
+  cases running <;> simp [Gen.Src.c18MetaClose, Gen.Src.c18MetaCloseKind, Gen.Src.c18MetaCloseMark, flagCloseRefuses, unsubStopsNow]
+
 end AutoVerif.C18
